@@ -1091,6 +1091,9 @@ class Envelope:
             # Given arguments 0,0 don't have an effect
             operation.compute_dimensions([0], jnp.array([0]))
 
+        if operation.operator.shape != (states[0].dimensions, states[0].dimensions):
+            raise ValueError("Operator has the wrong dimensions")
+
         reshape_shape = [-1, -1]
         assert isinstance(self.fock.index, int)
         assert isinstance(self.fock.dimensions, int)
